@@ -129,7 +129,9 @@ def run_case(spec):
             cs = [complex(rng.choice([0.5, 2.0, -2.0, 1.5])) * (1j if rng.random() < 0.5 else 1) + (0.25 if rng.random() < 0.3 else 0) for _ in range(p.n_par)]
             bitwise = False
             counters["complex_scale"] += 1
-        if p.notes.get("int_h0"):
+        if p.notes.get("int_h0") or p.notes.get("input_basis_term"):
+            # (input_basis_term: the base problem passes a term exactly as defined in the input basis, the twin passes the
+            # rotation of its canonical form - equal up to rounding only)
             # integer-typed terms become float in the scaled twin: numpy multiplies int @ float and float @ float with
             # different kernels (summation order), so the two runs may differ in the last bit - compared with a tolerance
             bitwise = False
